@@ -995,6 +995,9 @@ func c01StackPrimitives(c *Ctx, r *Report, clause string, st *Staged) {
 			r.Fail(clause, "R4 DECISION-TABLE", name+"/PushStateSym", sk.pos(token.NoPos), "no PushStateSym")
 		} else {
 			pe := newPathEnum(sk.Info)
+			if ps := paramObjs(sk.Info, push); len(ps) == 1 {
+				pe.rename[ps[0]] = "state" // whatever the parameter is called
+			}
 			paths, err := pe.Enumerate(push.Body.List)
 			why := ""
 			if err != nil {
@@ -1043,6 +1046,9 @@ func c01StackPrimitives(c *Ctx, r *Report, clause string, st *Staged) {
 			r.Fail(clause, "R4 DECISION-TABLE", name+"/PopStateSym", sk.pos(token.NoPos), "no PopStateSym")
 		} else {
 			pe := newPathEnum(sk.Info)
+			if ps := paramObjs(sk.Info, pop); len(ps) == 1 {
+				pe.rename[ps[0]] = "num"
+			}
 			paths, err := pe.Enumerate(pop.Body.List)
 			why := ""
 			if err != nil || len(paths) != 1 {
@@ -1759,7 +1765,7 @@ func pkgVarInitOf(f *FuncRef, v *types.Var) (ast.Expr, bool) {
 
 // runeValuation: next()/peek() yield ch; unicode predicates, strings.ContainsRune(const, r) and HasPrefix on the
 // remaining input (taken as "not a comment start") are folded for that rune.
-func runeValuation(ch int64) Valuation {
+func runeValuation(ch int64, tables ...map[string]map[int64]constant.Value) Valuation {
 	var val Valuation
 	val = func(t *Term) (constant.Value, bool) {
 		if t.Op == "leaf" && t.Name == "RUNE" {
@@ -1767,6 +1773,24 @@ func runeValuation(ch int64) Valuation {
 		}
 		if t.Op != "call" {
 			return nil, false
+		}
+		// `v, ok := T[r]` on a constant package-level table: result0 = the entry (zero value when absent), result1 = presence
+		if (t.Name == "result0" || t.Name == "result1") && len(t.Args) == 1 && t.Args[0].Op == "index" && len(t.Args[0].Args) == 2 && len(tables) > 0 {
+			if base := t.Args[0].Args[0]; base.Op == "leaf" {
+				if tab, ok := tables[0][base.Name]; ok {
+					if k, ok := evalTerm(t.Args[0].Args[1], val); ok && k.Kind() == constant.Int {
+						n, _ := constant.Int64Val(k)
+						v, present := tab[n]
+						if t.Name == "result1" {
+							return constant.MakeBool(present), true
+						}
+						if present {
+							return v, true
+						}
+						return constant.MakeString(""), true
+					}
+				}
+			}
 		}
 		arg := func(i int) (rune, bool) {
 			if i >= len(t.Args) {
@@ -1819,6 +1843,55 @@ func c10RootDispatch(c *Ctx, r *Report, clause string) {
 		key := f.Name + "/character-class-to-token-class"
 		pe := newPathEnum(info)
 		paths, err := pe.Enumerate(f.Decl.Body.List)
+		// constant rune-keyed tables of the package (a dispatch written as a map lookup)
+		tables := map[string]map[int64]constant.Value{}
+		for _, file := range f.Pkg.Syntax {
+			for _, d := range file.Decls {
+				gd, ok := d.(*ast.GenDecl)
+				if !ok {
+					continue
+				}
+				for _, sp := range gd.Specs {
+					vs, ok := sp.(*ast.ValueSpec)
+					if !ok {
+						continue
+					}
+					for i, nm := range vs.Names {
+						v, ok := info.Defs[nm].(*types.Var)
+						if !ok || i >= len(vs.Values) {
+							continue
+						}
+						if _, isMap := v.Type().Underlying().(*types.Map); !isMap {
+							continue
+						}
+						init, assigned := pkgVarInitOf(f, v)
+						lit, ok := init.(*ast.CompositeLit)
+						if !ok || assigned {
+							continue
+						}
+						tab := map[int64]constant.Value{}
+						good := true
+						for _, el := range lit.Elts {
+							kv, ok := el.(*ast.KeyValueExpr)
+							if !ok {
+								good = false
+								break
+							}
+							k, okk := constInt(info, kv.Key)
+							cv := constOf(info, kv.Value)
+							if !okk || cv == nil {
+								good = false
+								break
+							}
+							tab[k] = cv
+						}
+						if good {
+							tables[shortPkg(v.Pkg())+"."+v.Name()] = tab
+						}
+					}
+				}
+			}
+		}
 		if err != nil {
 			r.Undecided(clause, "R4 DECISION-TABLE", key, c.pos(f.Decl.Pos()), err.Error())
 		} else {
@@ -1839,7 +1912,8 @@ func c10RootDispatch(c *Ctx, r *Report, clause string) {
 			n := 0
 			for _, w := range table {
 				for _, ch := range w.runes {
-					sel := selectPaths(paths, runeValuation(int64(ch)))
+					rv := runeValuation(int64(ch), tables)
+					sel := selectPaths(paths, rv)
 					if len(sel) == 0 {
 						bad = append(bad, fmt.Sprintf("%q: no path", ch))
 						continue
@@ -1856,8 +1930,11 @@ func c10RootDispatch(c *Ctx, r *Report, clause string) {
 						emitted := ""
 						for _, e := range p.Effects {
 							if e.Kind == "call" && strings.HasSuffix(e.Term.Name, "lexer).emit") && len(e.Term.Args) >= 1 {
-								if a := e.Term.Args[len(e.Term.Args)-1]; a.Val != nil && a.Val.Kind() == constant.String {
+								a := e.Term.Args[len(e.Term.Args)-1]
+								if a.Val != nil && a.Val.Kind() == constant.String {
 									emitted = constant.StringVal(a.Val)
+								} else if v, ok := evalTerm(a, rv); ok && v.Kind() == constant.String {
+									emitted = constant.StringVal(v)
 								}
 							}
 							if e.Kind == "call" && strings.HasSuffix(e.Term.Name, "lexer).error") {
@@ -1889,13 +1966,27 @@ func c10RootDispatch(c *Ctx, r *Report, clause string) {
 				loop = fs
 			}
 		}
-		if loop == nil || loop.Cond == nil {
+		// the continuation test: the loop's condition, or the negation of the `if … { break }` of an endless loop
+		var contCond ast.Expr
+		if loop != nil {
+			contCond = loop.Cond
+			if contCond == nil {
+				for _, st := range loop.Body.List {
+					if is, ok := st.(*ast.IfStmt); ok && is.Else == nil && is.Init == nil && len(is.Body.List) == 1 {
+						if br, ok := is.Body.List[0].(*ast.BranchStmt); ok && br.Tok == token.BREAK && br.Label == nil && contCond == nil {
+							contCond = &ast.UnaryExpr{OpPos: is.Cond.Pos(), Op: token.NOT, X: &ast.ParenExpr{Lparen: is.Cond.Pos(), X: is.Cond, Rparen: is.Cond.End()}}
+						}
+					}
+				}
+			}
+		}
+		if loop == nil || contCond == nil {
 			r.Undecided(clause, "R4 DECISION-TABLE", key, c.pos(f.Decl.Pos()), "no `for <rune may continue an identifier>; r = l.next()` loop")
 			return
 		}
 		// the tested rune: a local assigned from l.next() (before the loop and in the post statement)
 		pe := newPathEnum(info)
-		ast.Inspect(loop.Cond, func(n ast.Node) bool {
+		ast.Inspect(contCond, func(n ast.Node) bool {
 			if id, ok := n.(*ast.Ident); ok {
 				if v, isV := objOf(info, id).(*types.Var); isV && !v.IsField() && v.Pkg() != nil && v.Parent() != v.Pkg().Scope() {
 					pe.rename[v] = "RUNE"
@@ -1903,7 +1994,7 @@ func c10RootDispatch(c *Ctx, r *Report, clause string) {
 			}
 			return true
 		})
-		paths, err := pe.Enumerate([]ast.Stmt{&ast.IfStmt{If: loop.Cond.Pos(), Cond: loop.Cond, Body: &ast.BlockStmt{Lbrace: loop.Cond.Pos(), List: []ast.Stmt{&ast.ReturnStmt{Return: loop.Cond.Pos()}}, Rbrace: loop.Cond.End()}}})
+		paths, err := pe.Enumerate([]ast.Stmt{&ast.IfStmt{If: contCond.Pos(), Cond: contCond, Body: &ast.BlockStmt{Lbrace: contCond.Pos(), List: []ast.Stmt{&ast.ReturnStmt{Return: contCond.Pos()}}, Rbrace: contCond.End()}}})
 		if err != nil {
 			r.Undecided(clause, "R4 DECISION-TABLE", key, c.pos(loop.Pos()), err.Error())
 			return
